@@ -77,10 +77,13 @@ def run_components(run, gens, tier, seed, replay, exe, timeout_case=60, label=""
     return ndis, first_dis
 
 
-def run(run, pid, gens, tier, seed, replay, rule, mode="asan", timeout_case=60, assumptions=()):
+def run(run, pid, gens, tier, seed, replay, rule, mode="asan", timeout_case=60, assumptions=(), poolskel=False):
     run.rule = rule
     run.assumptions = list(assumptions)
     proof_ok, r = vlib.proof_side(run, pid)
+    skel_bad = []
+    if poolskel:
+        sok, skel_bad, skel = vlib.poolskel_side(run, pid)
     ok, msg = vlib.build_oracle()
     run.oblige("extracted oracle builds", ok, msg)
     exe, msg = vlib.build_driver(mode)
@@ -89,6 +92,10 @@ def run(run, pid, gens, tier, seed, replay, rule, mode="asan", timeout_case=60, 
         run.violation("build failed", {"kind": "build", "operation": "build", "detail": msg}, found_input=False)
         return
     ndis, first_dis = run_components(run, gens, tier, seed, replay, exe, timeout_case)
+    if skel_bad and not run.violations:
+        run.violation("the synchronisation skeleton of the current source is not the one the LTS models (%s); property not seen to fail on the explored schedules"
+                      % ", ".join(skel_bad), {"kind": "skeleton", "operation": "Properties_poolskel", "obligations": skel_bad,
+                                              "detail": run.extra.get("poolskel_check", {})}, found_input=False)
     if not proof_ok:
         run.violation("proof obligation of %s no longer checks" % pid,
                       {"kind": "proof", "operation": "coqc", "detail": run.extra.get("coq_failure", {})}, found_input=False)
